@@ -1352,6 +1352,14 @@ main(int argc, char *argv[])
 			run_defaults(p->y, p->y, k, rd, sec);
 		} else if (sscanf(ex.cas, "L %d %d %d", &li, &a, &k) == 3 && li >= 0 && li < nlocs) {
 			run_locale(li, a, k);
+		} else if (sscanf(ex.cas, "X %d %llu %d", &set, &idx, &rd) == 3 && set >= 0 && set < NRBASE && idx < rfmt_count(set) && rd >= 0 && rd < RC_NDAYS) {
+			ex.thorough = 1;
+			run_redundant(set, idx, rd);
+		} else if (sscanf(ex.cas, "N %d %d %d", &k, &rd, &sec) == 3 && k >= 0 && k < NNNAMES && rd >= 0 && rd < RC_NDAYS) {
+			run_named(k, rd, rd + 1, sec);
+		} else if (sscanf(ex.cas, "E %d %d %d %d", &k, &rd, &sec, &a) == 4 && k >= 0 && k < NEFMT && rd >= 0 && rd < RC_NDAYS) {
+			const struct rc_day *p = rc_get(rd);
+			run_epoch_ns(k, p->y, p->y, rd, sec, a);
 		} else if (sscanf(ex.cas, "S %d %llu %d %d", &set, &idx, &rd, &sec) == 4 && set >= 0 && set < NDSETS && idx < set_size(set)) {
 			run_stdin_binding(set, idx, rd, sec);
 		} else if (sscanf(ex.cas, "B %d %llu %d", &set, &idx, &rd) == 3 && set >= 0 && set < NDSETS && idx < set_size(set) && rd >= 0 && rd < RC_NDAYS) {
@@ -1381,6 +1389,10 @@ main(int argc, char *argv[])
 		ex_meta("bound", "%llu format coordinates (all, both tiers); days: %s; times: all 86,400 seconds; default outputs: %s; locales: all %d",
 			(unsigned long long)tot, ex.thorough ? "1997-2004, 1601-1608, 4088-4095, 1897-1904 (11,687 days)" : "1997-2004 (2,922 days; four-field formats: 2000 only)",
 			ex.thorough ? "all 911,280 days" : "1997-2004, 1601-1608, 4088-4095", nlocs);
+		ex_meta("further_families", "R: base {%%Y %%m %%d} {%%d %%b %%Y} {%%Y %%j} {%%G %%V %%u} {%%F} in every order + one of %d further date specifiers at every position, separator blank or '-' "
+			"throughout, all days of the windows; N: -f jdn|julian|ldn|lilian|mdn|matlab then -i the same name, dates and date-times (7 times on every day of the windows, every second of "
+			"2012-03-04); E: %%s, %%s%%N, %%s.%%N, %%s %%N on date-times with 0 and 123 ns (parsed second, and printing the parsed value again gives the same text); "
+			"the documented spelling 00 of Sunday for %%w in every enumerated format that has %%w, every Sunday of the windows", NREXTRA);
 		ex_meta("stdin_binding", "the dconv binary in plain stream mode (needle search), one process per format, lines = the formatted text of every day of 2000 (business days for bizda) "
 			"resp. 360/120 boundary seconds of a day, alone and embedded as 'foo <text> bar'; per-line result reconstructed from stdout + the refused lines named on stderr; "
 			"expected = library-level dt_strpdt(text,F); formats: %s", ex.thorough ? "every format in scope" :
@@ -1427,6 +1439,45 @@ main(int argc, char *argv[])
 		if (ex_mine(slice)) {
 			run_locale(li, -1, -1);
 			++*c_traces;
+		}
+	}
+	/* a determining set plus one redundant field */
+	for (int b = 0; b < NRBASE && !ex_expired(); b++) {
+		uint64_t n = rfmt_count(b);
+		for (uint64_t lo = 0; lo < n && !ex_expired(); lo += 8, slice++) {
+			if (!ex_mine(slice)) {
+				continue;
+			}
+			for (uint64_t i = lo; i < lo + 8 && i < n; i++) {
+				run_redundant(b, i, -1);
+			}
+			++*c_traces;
+		}
+	}
+	/* calendar-name formats: days of the windows (dates and 7 times of day), every second of 2012-03-04 */
+	for (int k = 0; k < NNNAMES && !ex_expired(); k++) {
+		for (int w = 0; w < (ex.thorough ? 4 : 1); w++) {
+			for (int y = W8[w].y0; y <= W8[w].y1; y++, slice++) {
+				if (ex_mine(slice) && !ex_expired()) {
+					run_named(k, rc_yearstart[y], rc_yearstart[y + 1], -2);
+					++*c_traces;
+				}
+			}
+		}
+		if (ex_mine(slice++) && !ex_expired()) {
+			run_named(k, rc_yearstart[2012] + 63, rc_yearstart[2012] + 64, -2);
+			++*c_traces;
+		}
+	}
+	/* epoch formats with nanoseconds */
+	for (int k = 0; k < NEFMT && !ex_expired(); k++) {
+		for (int w = 0; w < (ex.thorough ? 4 : 1); w++) {
+			for (int y = W8[w].y0; y <= W8[w].y1; y++, slice++) {
+				if (ex_mine(slice) && !ex_expired()) {
+					run_epoch_ns(k, y, y, -1, 0, 0);
+					++*c_traces;
+				}
+			}
 		}
 	}
 	/* binding: 200 date formats, spread over the sets: the first ones of each date set in canonical order */
